@@ -40,7 +40,7 @@ ASSUMPTIONS = [
     "excluded: callables, context, composite_move_type, unique_labels, and the attributes documented as reset after each move",
     "JSON text is produced and parsed by ase.io.jsonio (the codec the restart observer uses)",
 ]
-REQUIRED = {"generator_states_compared": 50, "modules_imported_first": 20, "class_roundtrips": 300, "classes_discovered": 15, "driver_roundtrips": 50, "attributes_compared": 1000}
+REQUIRED = {"rebuilt_twice_from_one_dictionary": 300, "generator_states_compared": 50, "modules_imported_first": 20, "class_roundtrips": 300, "classes_discovered": 15, "driver_roundtrips": 50, "attributes_compared": 1000}
 SHARD_TIMEOUT = {"quick": 600, "thorough": 1800}
 
 EXCLUDE = {"context", "composite_move_type", "unique_labels", "check_move", "distribution", "to_displace_labels", "displaced_labels", "to_add_atoms", "to_delete_label", "exchange_atoms", "number_of_moved_particles", "strain_tensor"}
@@ -327,6 +327,17 @@ def roundtrip(rec, obj, top):
             rec.viol(f"C08/second-generation-differs/{cname}", f"serializing the rebuilt {cname} gives a different dictionary", {"first": text[:400], "second": t2[:400]})
     except Exception as ex:  # noqa: BLE001
         rec.viol(f"C08/to_dict-raised/{cname}/{type(ex).__name__}", f"rebuilt {cname}.to_dict raised {ex}"[:300], {"class": cname})
+    # one stored dictionary, several objects (a template per replica): rebuilding must not consume the dictionary
+    try:
+        rec.count("rebuilt_twice_from_one_dictionary")
+        if encode(data) != text:
+            rec.viol(f"C08/from_dict-modifies-its-input/{cname}", f"{cname}.from_dict changed the dictionary it was given", {"before": text[:300], "after": encode(data)[:300]})
+        obj3 = cls.from_dict(data)
+        t3 = encode(obj3.to_dict())
+        if t3 != text:
+            rec.viol(f"C08/second-rebuild-from-same-dictionary-differs/{cname}", f"a second {cname} rebuilt from the same dictionary serializes differently", {"first": text[:400], "second_rebuild": t3[:400]})
+    except Exception as ex:  # noqa: BLE001
+        rec.viol(f"C08/from_dict-raised/{cname}/{type(ex).__name__}", f"rebuilding {cname} a second time from the same dictionary raised {type(ex).__name__}: {ex}"[:300], {"class": cname})
     return obj2
 
 
